@@ -124,10 +124,12 @@ class ModelState:
             m.index = {p: c for p, c in m.wt.items() if p not in IGNORED}
         elif k == "COMMIT":
             m.commits.append(dict(m.index))
-        elif k in ("CPU", "CPUP", "CPUI", "CPUIP"):
-            cid = len(m.commits) - 1 if k in ("CPU", "CPUP") else op[1]
+        elif k in ("CPU", "CPUP", "CPUI", "CPUIP", "CPUE", "CPUEP"):
+            # CPUE / CPUEP: `--id ""` - a checkpoint without a position: the tracked part is compared with
+            # whatever HEAD is at the time of the analysis (index -1 = the latest commit)
+            cid = len(m.commits) - 1 if k in ("CPU", "CPUP") else -1 if k in ("CPUE", "CPUEP") else op[1]
             pending = m.cp[1] if m.cp else None
-            if k in ("CPUP", "CPUIP"):
+            if k in ("CPUP", "CPUIP", "CPUEP"):
                 ch = m.changed_vs_head()
                 pending = tuple(sorted((p, c if c is not None else "missing") for p, c in ch.items())) if ch else None
             m.cp = (cid, pending)
@@ -178,14 +180,17 @@ class Real:
         elif k == "COMMIT":
             r.git("commit", "-q", "-m", "c%d" % len(self.commit_ids))
             self.commit_ids.append(r.head())
-        elif k in ("CPU", "CPUP", "CPUI", "CPUIP"):
+        elif k in ("CPU", "CPUP", "CPUI", "CPUIP", "CPUE", "CPUEP"):
             args = ["checkpoint", "update"]
-            if k in ("CPUP", "CPUIP"):
+            if k in ("CPUP", "CPUIP", "CPUEP"):
                 args.append("-p")
             want_id = r.head()
             if k in ("CPUI", "CPUIP"):
                 want_id = self.commit_ids[op[1]]
                 args += ["--id", want_id]
+            if k in ("CPUE", "CPUEP"):
+                want_id = ""
+                args += ["--id", ""]
             res = r.mr(*args)
             doc = res.json()
             if res.code != 0 or doc is None:
@@ -324,7 +329,8 @@ def inv_c02(model, real, tier):
                 ranges.append((i, j))
     for i in range(n):
         ranges.append((i, None))   # --begin alone: that commit .. working tree
-        ranges.append((None, i))   # --end alone: checkpoint .. that commit
+        if model.cp[0] != -1:
+            ranges.append((None, i))   # --end alone: checkpoint .. that commit (undefined for a checkpoint without an id)
     observed = None
     for (b, e) in ranges:
         extra = ([] if b is None else ["-b", real.commit_ids[b]]) + ([] if e is None else ["-e", real.commit_ids[e]])
@@ -876,6 +882,47 @@ def untracked_dir_task(task):
         s.cleanup()
 
 
+def ignored_paths_task(variant):
+    """C02 speaks about paths, not about targets: a changed path that a target's `ignores` covers (and
+    that therefore selects no target) is still a change and must be listed, in every output mode."""
+    s = sc.Scratch("ign")
+    try:
+        ts = [{"path": "a", "ignores": ["a/vendor", "a/NOTES.md"]}, {"path": "b", "uses": ["a/vendor/shared"]}, {"path": "c"}]
+        files = {"a/vendor/dep.txt": "dep 1\n", "a/vendor/old.txt": "old\n", "a/NOTES.md": "notes 1\n", "a/vendor/shared/s.txt": "s 1\n"}
+        r = sc.Repo(s, "r", ts, commands={t["path"]: {"build": "x"} for t in ts}, files=files)
+        v = []
+        evals = 0
+        first = r.head()
+        if r.mr("checkpoint", "update").code != 0:
+            raise common.EngineError("checkpoint update failed")
+        r.write("a/vendor/dep.txt", "dep 2\n")
+        os.unlink(r.path("a/vendor/old.txt"))
+        r.write("a/vendor/new.txt", "new\n")
+        r.write("a/NOTES.md", "notes 2\n")
+        r.write("a/vendor/shared/s.txt", "s 2\n")
+        want = sorted(["a/NOTES.md", "a/vendor/dep.txt", "a/vendor/new.txt", "a/vendor/old.txt", "a/vendor/shared/s.txt"], key=lambda x: x.encode())
+        if variant == "committed":
+            r.commit("edits")
+            want_range = sorted(want)
+            modes = [(["--changes", "-b", first, "-e", r.head()], want_range), (["--changes"], want_range), (["--all"], want_range)]
+        else:
+            modes = [(["--changes"], want), (["--all"], want), (["--changes", "--change-targets"], want), (["--changes", "--target-groups"], want)]
+        for args, w in modes:
+            doc = r.mr("analyze", *args).json()
+            evals += 1
+            got = None if doc is None else [c["path"] for c in doc.get("changes") or []]
+            if got != w:
+                v.append(("ignored-path-not-listed", "[%s] analyze %s lists %s, expected %s (a/vendor and a/NOTES.md are `ignores` entries of target a)" % (variant, " ".join(a for a in args if len(a) < 20), got, w)))
+        return {"violations": [{"sig": sig, "detail": d, "rank": 65, "case": {"ign_case": variant}} for sig, d in v],
+                "evals": evals, "obs": None, "nontrivial": 1}
+    except common.EngineError as e:
+        return {"engine_error": "%s (ignored paths, %s)" % (e, variant)}
+    except Exception:
+        return {"engine_error": "ignored paths %s: %s" % (variant, traceback.format_exc()[-1200:])}
+    finally:
+        s.cleanup()
+
+
 def unborn_task(kind):
     """HEAD resolves to no commit (a repository without commits, or an orphan branch after a real
     checkpoint): an update without --id has nothing to record, so it must fail and leave the store
@@ -986,7 +1033,7 @@ def state_task(task):
 
 
 RULES = {
-    "C02": "plus wholly untracked directories (5 places: inside a target, nested three deep, name with a space / non-ASCII, outside every target) whose files must be listed one by one; plus 9 sequences with surroundings outside the model (records of earlier successful / failed runs on disk, a log tail listener attached); plus an odd-file-name family (18 names: leading/trailing spaces, tab, newline, quote, backslash, non-ASCII, 200 characters, leading dash, glob characters), each untracked and tracked-modified; plus a many-pending-paths family (1..40 and 1000 paths in quick, up to 2500 in thorough, of mixed sizes, untracked / staged / modified / deleted at once); plus the size family of C07 judged on the reported change list (a pending file edited beyond a buffer/read boundary must be listed, restored content must be filtered); explicit-state BFS over operation sequences {write(p,c), delete(p), mv, git mv, add -A, commit, checkpoint update [-p] [--id k], checkpoint delete, out delete --all} on paths {a/f.txt, 'b/n e-acute.txt', b/m.txt}; state = (commits, index, worktree, checkpoint) with commit ids canonicalised to indices; each new state is materialised in a real repository (real git, real monorail) and, when a checkpoint exists, `analyze --changes` for the default range, every ordered pair of commits as --begin/--end, and every commit as --begin alone (.. working tree) and as --end alone (checkpoint ..) must equal the statement's set, also after every file was rewritten with the bytes it already had and a new mtime (content differs from base, plus untracked, minus pending-checksum matches), verbatim and sorted",
+    "C02": "plus changed paths covered by a target's ignores entries (modified, deleted, untracked, named exactly), in every output mode, uncommitted and as a commit range; plus wholly untracked directories (5 places: inside a target, nested three deep, name with a space / non-ASCII, outside every target) whose files must be listed one by one; plus 9 sequences with surroundings outside the model (records of earlier successful / failed runs on disk, a log tail listener attached); plus an odd-file-name family (18 names: leading/trailing spaces, tab, newline, quote, backslash, non-ASCII, 200 characters, leading dash, glob characters), each untracked and tracked-modified; plus a many-pending-paths family (1..40 and 1000 paths in quick, up to 2500 in thorough, of mixed sizes, untracked / staged / modified / deleted at once); plus the size family of C07 judged on the reported change list (a pending file edited beyond a buffer/read boundary must be listed, restored content must be filtered); explicit-state BFS over operation sequences {write(p,c), delete(p), mv, git mv, add -A, commit, checkpoint update [-p] [--id k], checkpoint delete, out delete --all} on paths {a/f.txt, 'b/n e-acute.txt', b/m.txt}; state = (commits, index, worktree, checkpoint) with commit ids canonicalised to indices; each new state is materialised in a real repository (real git, real monorail) and, when a checkpoint exists, `analyze --changes` for the default range, every ordered pair of commits as --begin/--end, and every commit as --begin alone (.. working tree) and as --end alone (checkpoint ..) must equal the statement's set, also after every file was rewritten with the bytes it already had and a new mtime (content differs from base, plus untracked, minus pending-checksum matches), verbatim and sorted",
     "C07": "plus wholly untracked directories (5 places) pending at update -p: a new file, a changed file and a new file in a subdirectory must each re-flag; plus 9 sequences with surroundings outside the model (records of earlier successful / failed runs on disk, a log tail listener attached); plus an odd-file-name family (18 names: leading/trailing spaces, tab, newline, quote, backslash, non-ASCII, 200 characters, leading dash, glob characters), each untracked and tracked-modified; plus a many-pending-paths family (1..40 and 1000 paths in quick, up to 2500 in thorough, of mixed sizes, untracked / staged / modified / deleted at once); plus the update-pair family of C19 judged on `analyze` after the second update -p; plus a size family: a pending file (untracked / modified / staged) of each size around the checksum buffer and read boundaries (65535..65537, 200000, 2 MiB+1; thorough more) must be clean after update -p and re-flagged by a one-byte edit at each boundary offset, an append and a truncation; same BFS; in every state reached by `checkpoint update -p`: analyze reports no targets and run starts nothing; then from that state every single later edit (fresh content for each path, new files, deletion of committed files; thorough: every pair) must re-flag exactly the targets of the edited paths, and a second update -p must clear them",
     "C19": "plus HEAD resolving to no commit (repository without commits; orphan branch after a real checkpoint): update must fail and leave the store as it was; plus 9 sequences with surroundings outside the model (records of earlier successful / failed runs on disk, a log tail listener attached); plus a many-pending-paths family (1..40 and 1000 paths in quick, up to 2500 in thorough, of mixed sizes, untracked / staged / modified / deleted at once); plus an update-pair family: worktree set to pending configuration S1 (each of a/f.txt, b/m.txt, a/g.txt absent or with one of two contents), `update -p`, worktree set to S2, second update (-p or plain) for every pair (S1,S2) (quick: at most two pending paths each): show must equal what the second update printed; same BFS; from every state (quick: every state whose last operation touched the store) a suffix probe update, update -p, delete: show follows each update and afterwards no checkpoint exists; in every state `checkpoint show` must equal what the last successful update printed (or fail when deleted / never set); updates must record HEAD or the given --id; without a checkpoint analyze reports checkpointed=false with every target and run covers every target",
     "C05": "plus 9 sequences with surroundings outside the model (records of earlier successful / failed runs on disk, a log tail listener attached); same BFS (part B of C05): in every state `analyze --target-groups` then `run -c build` in trace mode must agree on groups and started targets",
@@ -1064,6 +1111,13 @@ def bfs(prop, tier, depth, wall_cap=None):
             agg["distinct_nontrivial"] += r["nontrivial"]
             agg["violations"].extend(r["violations"])
         agg["update_pair_cases"] = len(tasks)
+    if prop == "C02":
+        for r in common.pmap(ignored_paths_task, ["worktree", "committed"]):
+            if "engine_error" in r:
+                raise common.EngineError(r["engine_error"])
+            agg["evaluations"] += r["evals"]
+            agg["violations"].extend(r["violations"])
+        agg["ignored_path_cases"] = 2
     if prop == "C19":
         for r in common.pmap(unborn_task, ["no-commits", "orphan-branch"]):
             if "engine_error" in r:
@@ -1101,6 +1155,15 @@ def bfs(prop, tier, depth, wall_cap=None):
             agg["evaluations"] += r["evals"]
             agg["violations"].extend(r["violations"])
         agg["surroundings_cases"] = len(sur)
+        # a checkpoint recorded with an empty id (`--id ""`): no position, the tracked part follows HEAD
+        emp = [[["CPUE"]], [["W", "a/f.txt", "2"], ["CPUE"]], [["W", "b/m.txt", "1"], ["CPUEP"]], [["CPUEP"], ["W", "a/f.txt", "2"]],
+               [["W", "a/f.txt", "2"], ["ADD"], ["COMMIT"], ["CPUE"], ["W", "b/m.txt", "1"]], [["W", "b/m.txt", "1"], ["CPUEP"], ["ADD"], ["COMMIT"]]]
+        for r in common.pmap(state_task, [(prop, tier, ops) for ops in emp]):
+            if "engine_error" in r:
+                raise common.EngineError(r["engine_error"])
+            agg["evaluations"] += r["evals"]
+            agg["violations"].extend(r["violations"])
+        agg["empty_id_cases"] = len(emp)
     if prop in ("C07", "C19", "C02"):
         # (about 900 pending paths make the stored checkpoint document larger than 64 KiB)
         counts = [1, 15, 16, 17, 40, 1000] if tier == "quick" else [1, 2, 7, 15, 16, 17, 31, 32, 33, 40, 64, 65, 200, 600, 1000, 2500]
@@ -1157,8 +1220,8 @@ def run(prop, tier):
 
 def replay(prop, path):
     body = json.load(open(path))
-    if "unborn_case" in body["case"]:
-        r1 = unborn_task(body["case"]["unborn_case"])
+    if "unborn_case" in body["case"] or "ign_case" in body["case"]:
+        r1 = unborn_task(body["case"]["unborn_case"]) if "unborn_case" in body["case"] else ignored_paths_task(body["case"]["ign_case"])
         if "engine_error" in r1:
             print("ENGINE:", r1["engine_error"])
             return 2
